@@ -185,24 +185,30 @@ theorem pull_small_layers_verified (H : Bytes → D) (d : D) (f : Bytes) (size :
 
 /-! ### Link is last -/
 
-theorem ensureFile_links (c : Cache D) (d : D) : (ensureFile c d).links = c.links := by
-  unfold ensureFile; split <;> rfl
+theorem setWork_links (v : Variant) (c : Cache D) (d : D) (f : Bytes) : (c.setWork v d f).links = c.links := by
+  unfold Cache.setWork; split <;> rfl
 
-theorem advance_links (verify : Bool) (limit : Option Nat) (st : Run D) (ops : List (Op D)) :
+theorem ensureFile_links (v : Variant) (c : Cache D) (d : D) : (ensureFile v c d).links = c.links := by
+  unfold ensureFile; split
+  · rfl
+  · exact setWork_links v c d []
+
+theorem advance_links (verify : Variant) (limit : Option Nat) (st : Run D) (ops : List (Op D)) :
     (advance verify limit st ops).cache.links = st.cache.links := by
   fun_induction advance verify limit st ops <;> simp_all [ensureFile_links]
+  split <;> simp [ensureFile_links]
 
-theorem applyTask_links (H : Bytes → D) (st : Run D) (t : Registry.Task D) (r : ChunkResp) :
-    (applyTask H st t r).cache.links = st.cache.links := by
+theorem applyTask_links (H : Bytes → D) (v : Variant) (st : Run D) (t : Registry.Task D) (r : ChunkResp) :
+    (applyTask H v st t r).cache.links = st.cache.links := by
   cases r with
   | fail e => rfl
   | body ps fin =>
     simp only [applyTask]
     split
     · rfl
-    · split <;> rfl
+    · split <;> simp [Cache.setMarker, setWork_links]
 
-theorem step_links (H : Bytes → D) (verify : Bool) (limit : Option Nat) (st st' : Run D) (s : Step)
+theorem step_links (H : Bytes → D) (verify : Variant) (limit : Option Nat) (st st' : Run D) (s : Step)
     (h : step H verify limit st s = some st') : st'.cache.links = st.cache.links := by
   cases s with
   | release k r =>
@@ -216,7 +222,7 @@ theorem step_links (H : Bytes → D) (verify : Bool) (limit : Option Nat) (st st
     injection h with h; subst h
     rw [advance_links]
 
-theorem runSteps_links (H : Bytes → D) (verify : Bool) (limit : Option Nat) (ss : List Step) :
+theorem runSteps_links (H : Bytes → D) (verify : Variant) (limit : Option Nat) (ss : List Step) :
     ∀ (st st' : Run D), runSteps H verify limit st ss = some st' → st'.cache.links = st.cache.links := by
   induction ss with
   | nil => intro st st' h; simp only [runSteps] at h; injection h with h; subst h; rfl
@@ -231,21 +237,57 @@ theorem runSteps_links (H : Bytes → D) (verify : Bool) (limit : Option Nat) (s
 theorem pullRun_links (H : Bytes → D) (cfg : Cfg) (c : Cache D) (m : Manifest D) (a : Attempt D)
     (st : Run D) (h : pullRun H cfg c m a = some st) : st.cache.links = c.links := by
   unfold pullRun at h
-  rw [runSteps_links H cfg.verify cfg.limit a.steps _ st h]
+  rw [runSteps_links H cfg.variant cfg.limit a.steps _ st h]
   unfold startRun
   simp only []
   rw [advance_links]
 
+theorem commitStaged_links (H : Bytes → D) (c : Cache D) (l : Layer D) :
+    (commitStaged H c l).1.links = c.links := by
+  unfold commitStaged; split
+  · rfl
+  · split <;> rfl
+
+theorem verifyLayer_links (H : Bytes → D) (c : Cache D) (l : Layer D) :
+    (verifyLayer H c l).1.links = c.links := by
+  unfold verifyLayer; split
+  · split
+    · split <;> rfl
+    · exact commitStaged_links H c l
+  · exact commitStaged_links H c l
+
+theorem verifyAll_links (H : Bytes → D) (ls : List (Layer D)) :
+    ∀ c : Cache D, (verifyAll H c ls).1.links = c.links := by
+  induction ls with
+  | nil => intro c; rfl
+  | cons l ls ih =>
+    intro c
+    unfold verifyAll
+    have := verifyLayer_links H c l
+    split
+    · rename_i c1 h1; rw [ih c1]; rw [h1] at this; exact this
+    · rename_i c1 h1; rw [h1] at this; exact this
+
+theorem verifyPass_links (H : Bytes → D) (cfg : Cfg) (c : Cache D) (m : Manifest D) :
+    (verifyPass H cfg c m).1.links = c.links := by
+  unfold verifyPass
+  split
+  · exact verifyAll_links H m.all c
+  · split
+    · split <;> rfl
+    · rfl
+
 /-- **Link is last.**  For every manifest, plan, fault script, completion order and MaxStreams:
     if `Pull` reports success then the run reached `g.Wait()` with every launched chunk goroutine
     returned (`inflight = []`, program exhausted), none of them failed (`firstErr = none`), the
-    byte counter equals the manifest's total, nothing before that point touched the links, and
-    the final cache is that state plus the one `Link`. -/
+    byte counter equals the manifest's total, the verification pass (if the tree has one) passed,
+    nothing up to that point touched the links, and the final cache is that state plus the one
+    `Link`. -/
 theorem pull_links_last (H : Bytes → D) (cfg : Cfg) (c c' : Cache D) (a : Attempt D)
     (h : pull H cfg c a = (c', .ok)) :
-    ∃ m st, a.man = .ok m ∧ pullRun H cfg c m a = some st ∧ st.ops = [] ∧ st.inflight = [] ∧
-      st.firstErr = none ∧ st.completed = expected m ∧ st.cache.links = c.links ∧
-      c' = st.cache.link cfg.linkShortcut a.name m := by
+    ∃ m st c1, a.man = .ok m ∧ pullRun H cfg c m a = some st ∧ st.ops = [] ∧ st.inflight = [] ∧
+      st.firstErr = none ∧ st.completed = expected m ∧ verifyPass H cfg st.cache m = (c1, true) ∧
+      c1.links = c.links ∧ c' = c1.link cfg.linkShortcut a.name m := by
   unfold pull at h
   split at h
   · cases h
@@ -255,7 +297,6 @@ theorem pull_links_last (H : Bytes → D) (cfg : Cfg) (c c' : Cache D) (a : Atte
     · split at h
       · cases h
       · rename_i st hst
-        refine ⟨m, st, hm, hst, ?_⟩
         unfold finish at h
         split at h
         · cases h
@@ -269,14 +310,16 @@ theorem pull_links_last (H : Bytes → D) (cfg : Cfg) (c c' : Cache D) (a : Atte
               have hdone' : st.ops.isEmpty = true ∧ st.inflight.isEmpty = true := by
                 simpa using hdone
               have hc' : st.completed = expected m := by simpa using hc
-              have hfin : c' = st.cache.link cfg.linkShortcut a.name m := by
-                split at h
-                · split at h
-                  · cases h
-                  · simp only [Prod.mk.injEq, and_true] at h; exact h.symm
-                · simp only [Prod.mk.injEq, and_true] at h; exact h.symm
-              exact ⟨by simpa using hdone'.1, by simpa using hdone'.2, hfe, hc',
-                pullRun_links H cfg c m a st hst, hfin⟩
+              split at h
+              · rename_i c1 hv
+                simp only [Prod.mk.injEq, and_true] at h
+                have hl : c1.links = c.links := by
+                  have := verifyPass_links H cfg st.cache m
+                  rw [hv] at this
+                  rw [this, pullRun_links H cfg c m a st hst]
+                exact ⟨m, st, c1, hm, hst, by simpa using hdone'.1, by simpa using hdone'.2, hfe, hc',
+                  hv, hl, h.symm⟩
+              · simp at h
 
 theorem finish_links (H : Bytes → D) (cfg : Cfg) (name : Nat) (m : Manifest D) (st : Run D)
     (h : (finish H cfg name m st).2 ≠ .ok) :
@@ -288,11 +331,10 @@ theorem finish_links (H : Bytes → D) (cfg : Cfg) (name : Nat) (m : Manifest D)
     · rfl
     · split
       · rfl
-      · split
-        · split
-          · rfl
-          · rename_i h1 _ h2 h3 h4 _ h5; simp [h1, h2, h3, h4, h5] at h
-        · rename_i h1 _ h2 h3 h4; simp [h1, h2, h3, h4] at h
+      · have := verifyPass_links H cfg st.cache m
+        split
+        · rename_i hv; simp [*] at h
+        · rename_i c1 hv; rw [hv] at this; exact this
 
 /-- **A failed pull never links.**  Whatever the registry does, if `Pull` returns an error the
     name → manifest links are exactly what they were before the call. -/
@@ -313,7 +355,7 @@ theorem failed_pull_keeps_links (H : Bytes → D) (cfg : Cfg) (c : Cache D) (a :
 theorem pull_links_other (H : Bytes → D) (cfg : Cfg) (c : Cache D) (a : Attempt D) (n : Nat)
     (hn : a.name ≠ n) : (pull H cfg c a).1.links n = c.links n := by
   by_cases hok : (pull H cfg c a).2 = .ok
-  · obtain ⟨m, st, _, _, _, _, _, _, hl, hc⟩ :=
+  · obtain ⟨m, st, c1, _, _, _, _, _, _, _, hl, hc⟩ :=
       pull_links_last H cfg c (pull H cfg c a).1 a (by rw [← hok])
     rw [hc, ← hl]
     unfold Cache.link
@@ -648,7 +690,7 @@ theorem legacy_push_manifest_last (ls : List LegacyLayer) : ∀ i : Nat,
 /-! ### Witnesses of F10 (the model shares these defects with the code).  `D := Bytes`, `H := id`:
     a digest is its pre-image, so "the file hashes to the layer digest" is "file = digest". -/
 
-def wcfg : Cfg := ⟨2, none, true, false⟩
+def wcfg : Cfg := ⟨2, none, true, false, false⟩
 def abc : Bytes := [97, 98, 99]
 def abcd : Bytes := [97, 98, 99, 100]
 def mABC : Manifest Bytes := ⟨1, 100, [⟨abc, 3⟩], none⟩
@@ -700,7 +742,7 @@ theorem F10c_chunk_digests_from_registry :
     verified).  Then a pull of another name whose manifest declares the same digest with size 5
     is not stopped by the size shortcut; its first read is written over the verified blob before
     the digest check fails.  The pull fails, name 0 stays linked, its layer is corrupted. -/
-def dcfg : Cfg := ⟨6, none, true, false⟩
+def dcfg : Cfg := ⟨6, none, true, false, false⟩
 def d1 : Attempt Bytes := ⟨0, .ok mABCD, [], [.release 0 (.body [[97, 98], [99, 100]] .eof)]⟩
 def mLie : Manifest Bytes := ⟨3, 101, [⟨abcd, 5⟩], none⟩
 def d2 : Attempt Bytes := ⟨1, .ok mLie, [], [.release 0 (.body [[1, 2], [3, 4, 5]] .eof)]⟩
@@ -722,52 +764,308 @@ theorem link_files (sc : Bool) (c : Cache D) (n : Nat) (m : Manifest D) : (c.lin
   · split <;> rfl
   · rfl
 
-/-- **`pull_success_verified`, full strength, for the repaired tree (`cfg.verify = true`, /repo since
-    2258da28d).**  For ANY starting cache (whatever earlier attempts, failed or not, left: holey
-    or oversized files, stale markers), any manifest, any served chunk plans (broken, repeated,
-    overlapping, past the layer end), any fault script, completion order and MaxStreams: if
-    `Pull` reports success, every layer of the manifest (config included) is in the cache as a
-    file of EXACTLY the manifest's size whose hash, over the WHOLE file, is the manifest's digest. -/
-theorem pull_success_verified (H : Bytes → D) (cfg : Cfg) (hv : cfg.verify = true) (c c' : Cache D)
-    (a : Attempt D) (h : pull H cfg c a = (c', .ok)) :
-    ∃ m, a.man = .ok m ∧ ∀ l ∈ m.all, ∃ f, c'.files l.digest = some f ∧ f.length = l.size ∧ H f = l.digest := by
-  unfold pull at h
+/-- the blob `d` is in the cache as a file of exactly `s` bytes whose whole-file hash is `d` -/
+def Good (H : Bytes → D) (c : Cache D) (d : D) (s : Nat) : Prop :=
+  ∃ f, c.files d = some f ∧ f.length = s ∧ H f = d
+
+/-- the one property of SHA-256 the `staged` theorems use: no collision between byte strings of
+    different lengths -/
+def NoLenCollision (H : Bytes → D) : Prop := ∀ x y : Bytes, H x = H y → x.length = y.length
+
+theorem commitStaged_good_self (H : Bytes → D) (c c1 : Cache D) (l : Layer D)
+    (h : commitStaged H c l = (c1, true)) : Good H c1 l.digest l.size := by
+  unfold commitStaged at h
   split at h
   · cases h
-  · rename_i m hm
-    refine ⟨m, hm, ?_⟩
+  · rename_i p _
+    split at h
+    · rename_i hp
+      simp only [Bool.and_eq_true, beq_iff_eq, decide_eq_true_eq] at hp
+      simp only [Prod.mk.injEq, and_true] at h
+      subst h
+      exact ⟨p, by simp, hp.1, hp.2⟩
+    · cases h
+
+theorem commitStaged_preserves (H : Bytes → D) (hcol : NoLenCollision H) (c : Cache D) (l : Layer D)
+    (d : D) (s : Nat) (hg : Good H c d s) : Good H (commitStaged H c l).1 d s := by
+  unfold commitStaged
+  split
+  · exact hg
+  · rename_i p _
+    split
+    · rename_i hp
+      simp only [Bool.and_eq_true, beq_iff_eq, decide_eq_true_eq] at hp
+      obtain ⟨f, hf, hl, hH⟩ := hg
+      by_cases hd : d = l.digest
+      · refine ⟨p, by simp [hd], ?_, by rw [hd]; exact hp.2⟩
+        rw [← hl]; exact hcol p f (by rw [hp.2, hH, hd])
+      · exact ⟨f, by simp [hd, hf], hl, hH⟩
+    · exact hg
+
+theorem verifyLayer_good_self (H : Bytes → D) (c c1 : Cache D) (l : Layer D)
+    (h : verifyLayer H c l = (c1, true)) : Good H c1 l.digest l.size := by
+  unfold verifyLayer at h
+  split at h
+  · rename_i f hf
+    split at h
+    · rename_i hlen
+      split at h
+      · rename_i hH
+        simp only [Prod.mk.injEq, and_true] at h; subst h
+        exact ⟨f, hf, by simpa using hlen, hH⟩
+      · cases h
+    · exact commitStaged_good_self H c c1 l h
+  · exact commitStaged_good_self H c c1 l h
+
+theorem verifyLayer_preserves (H : Bytes → D) (hcol : NoLenCollision H) (c : Cache D) (l : Layer D)
+    (d : D) (s : Nat) (hg : Good H c d s) : Good H (verifyLayer H c l).1 d s := by
+  unfold verifyLayer
+  split
+  · rename_i f hf
+    split
+    · split
+      · exact hg
+      · rename_i hH
+        obtain ⟨f', hf', hl, hH'⟩ := hg
+        by_cases hd : d = l.digest
+        · exfalso; rw [hd, hf] at hf'; injection hf' with e; subst e; exact hH (by rw [hH', hd])
+        · exact ⟨f', by simp [Cache.removeFile, hd, hf'], hl, hH'⟩
+    · exact commitStaged_preserves H hcol c l d s hg
+  · exact commitStaged_preserves H hcol c l d s hg
+
+theorem verifyAll_preserves (H : Bytes → D) (hcol : NoLenCollision H) (ls : List (Layer D)) :
+    ∀ (c : Cache D) (d : D) (s : Nat), Good H c d s → Good H (verifyAll H c ls).1 d s := by
+  induction ls with
+  | nil => intro c d s hg; exact hg
+  | cons l ls ih =>
+    intro c d s hg
+    have := verifyLayer_preserves H hcol c l d s hg
+    unfold verifyAll
+    split
+    · rename_i c1 h1; rw [h1] at this; exact ih c1 d s this
+    · rename_i c1 h1; rw [h1] at this; exact this
+
+theorem verifyAll_good (H : Bytes → D) (hcol : NoLenCollision H) (ls : List (Layer D)) :
+    ∀ (c c1 : Cache D), verifyAll H c ls = (c1, true) → ∀ l ∈ ls, Good H c1 l.digest l.size := by
+  induction ls with
+  | nil => intro c c1 _ l hl; cases hl
+  | cons l0 ls ih =>
+    intro c c1 h l hl
+    unfold verifyAll at h
+    split at h
+    · rename_i c2 h2
+      rcases List.mem_cons.mp hl with rfl | hl
+      · have := verifyAll_preserves H hcol ls c2 l.digest l.size (verifyLayer_good_self H c c2 l h2)
+        rw [h] at this; exact this
+      · exact ih c2 c1 h l hl
+    · simp at h
+
+theorem verifyPass_good (H : Bytes → D) (cfg : Cfg) (hv : cfg.verify = true)
+    (hcol : cfg.staged = true → NoLenCollision H) (c c1 : Cache D) (m : Manifest D)
+    (h : verifyPass H cfg c m = (c1, true)) : ∀ l ∈ m.all, Good H c1 l.digest l.size := by
+  unfold verifyPass at h
+  by_cases hs : cfg.staged = true
+  · simp only [hv, hs, Bool.and_self, if_true] at h
+    exact verifyAll_good H (hcol hs) m.all c c1 h
+  · simp only [hv, hs, Bool.and_false, Bool.false_eq_true, if_false, if_true] at h
+    split at h
+    · simp at h
+    · rename_i hnone
+      simp only [Prod.mk.injEq, and_true] at h; subst h
+      intro l hl
+      have hg : layerGood H c l = true := by
+        have := List.find?_eq_none.mp hnone l hl
+        simpa using this
+      unfold layerGood at hg
+      split at hg
+      · rename_i f hf
+        simp only [Bool.and_eq_true, beq_iff_eq, decide_eq_true_eq] at hg
+        exact ⟨f, hf, hg.1, hg.2⟩
+      · cases hg
+
+/-- **`pull_success_verified`, full strength, for every tree that verifies before `Link`
+    (`cfg.verify = true`: /repo since 2258da28d, with or without staged chunk files).**  For ANY
+    starting cache (whatever earlier attempts, failed or not, left: holey or oversized files,
+    stale markers, stale staging files), any manifest, any served chunk plans (broken, repeated,
+    overlapping, past the layer end), any fault script, completion order and MaxStreams: if
+    `Pull` reports success, every layer of the manifest (config included) is in the cache as a
+    file of EXACTLY the manifest's size whose hash, over the WHOLE file, is the manifest's
+    digest.  (The `staged` variant commits layers one after the other; that a later commit does
+    not disturb an earlier layer uses `NoLenCollision`.) -/
+theorem pull_success_verified (H : Bytes → D) (cfg : Cfg) (hv : cfg.verify = true)
+    (hcol : cfg.staged = true → NoLenCollision H) (c c' : Cache D)
+    (a : Attempt D) (h : pull H cfg c a = (c', .ok)) :
+    ∃ m, a.man = .ok m ∧ ∀ l ∈ m.all, Good H c' l.digest l.size := by
+  obtain ⟨m, st, c1, hm, _, _, _, _, _, hpass, _, hc'⟩ := pull_links_last H cfg c c' a h
+  refine ⟨m, hm, fun l hl => ?_⟩
+  obtain ⟨f, hf, h1, h2⟩ := verifyPass_good H cfg hv hcol st.cache c1 m hpass l hl
+  exact ⟨f, by rw [hc', link_files]; exact hf, h1, h2⟩
+
+/-! ### The `staged` variant: the run never writes a blob file; verified blobs are never damaged -/
+
+theorem setWork_files (v : Variant) (hs : v.staged = true) (c : Cache D) (d : D) (f : Bytes) :
+    (c.setWork v d f).files = c.files := by
+  unfold Cache.setWork; simp [hs]
+
+theorem ensureFile_files (v : Variant) (hs : v.staged = true) (c : Cache D) (d : D) :
+    (ensureFile v c d).files = c.files := by
+  unfold ensureFile; split
+  · rfl
+  · exact setWork_files v hs c d []
+
+theorem advance_files (v : Variant) (hs : v.staged = true) (limit : Option Nat) (st : Run D) (ops : List (Op D)) :
+    (advance v limit st ops).cache.files = st.cache.files := by
+  fun_induction advance v limit st ops <;> simp_all [ensureFile_files]
+  split <;> simp [ensureFile_files, hs]
+
+theorem applyTask_files (H : Bytes → D) (v : Variant) (hs : v.staged = true) (st : Run D)
+    (t : Registry.Task D) (r : ChunkResp) : (applyTask H v st t r).cache.files = st.cache.files := by
+  cases r with
+  | fail e => rfl
+  | body ps fin =>
+    simp only [applyTask]
+    split
+    · rfl
+    · split <;> simp [Cache.setMarker, setWork_files, hs]
+
+theorem step_files (H : Bytes → D) (v : Variant) (hs : v.staged = true) (limit : Option Nat)
+    (st st' : Run D) (s : Step) (h : step H v limit st s = some st') :
+    st'.cache.files = st.cache.files := by
+  cases s with
+  | release k r =>
+    simp only [step] at h
     split at h
     · cases h
-    · split at h
-      · cases h
-      · rename_i st _
-        unfold finish at h
-        simp only [hv, if_true] at h
-        split at h
-        · cases h
-        · split at h
-          · cases h
-          · split at h
-            · cases h
-            · split at h
-              · cases h
-              · rename_i hnone
-                simp only [Prod.mk.injEq, and_true] at h
-                intro l hl
-                have hg : layerGood H st.cache l = true := by
-                  have := List.find?_eq_none.mp hnone l hl
-                  simpa using this
-                unfold layerGood at hg
-                split at hg
-                · rename_i f hf
-                  simp only [Bool.and_eq_true, beq_iff_eq, decide_eq_true_eq] at hg
-                  exact ⟨f, by rw [← h, link_files]; exact hf, hg.1, hg.2⟩
-                · cases hg
+    · injection h with h; subst h
+      rw [advance_files v hs, applyTask_files H v hs]
+  | cancel =>
+    simp only [step] at h
+    injection h with h; subst h
+    rw [advance_files v hs]
+
+theorem runSteps_files (H : Bytes → D) (v : Variant) (hs : v.staged = true) (limit : Option Nat)
+    (ss : List Step) :
+    ∀ (st st' : Run D), runSteps H v limit st ss = some st' → st'.cache.files = st.cache.files := by
+  induction ss with
+  | nil => intro st st' h; simp only [runSteps] at h; injection h with h; subst h; rfl
+  | cons s ss ih =>
+    intro st st' h
+    simp only [runSteps] at h
+    split at h
+    · cases h
+    · rename_i st1 hs1
+      rw [ih st1 st' h, step_files H v hs limit st st1 s hs1]
+
+/-- **The run never writes a blob file (`staged`).**  Up to `g.Wait()`, whatever the registry
+    serves, the blob files are exactly what they were before `Pull` was called. -/
+theorem pullRun_files (H : Bytes → D) (cfg : Cfg) (hs : cfg.staged = true) (c : Cache D) (m : Manifest D)
+    (a : Attempt D) (st : Run D) (h : pullRun H cfg c m a = some st) : st.cache.files = c.files := by
+  unfold pullRun at h
+  have hs' : cfg.variant.staged = true := hs
+  rw [runSteps_files H cfg.variant hs' cfg.limit a.steps _ st h]
+  unfold startRun
+  simp only []
+  rw [advance_files cfg.variant hs']
+
+theorem verifyPass_preserves (H : Bytes → D) (cfg : Cfg) (hv : cfg.verify = true) (hs : cfg.staged = true)
+    (hcol : NoLenCollision H) (c : Cache D) (m : Manifest D) (d : D) (s : Nat) (hg : Good H c d s) :
+    Good H (verifyPass H cfg c m).1 d s := by
+  unfold verifyPass
+  simp only [hv, hs, Bool.and_self, if_true]
+  exact verifyAll_preserves H hcol m.all c d s hg
+
+/-- **No pull damages a verified blob (`staged` variant: F10d excluded).**  For every blob that is
+    in the cache with size `s` and whole-file hash equal to its name, and for EVERY pull —
+    any name, any manifest (also one declaring that digest with another size), any plans, any
+    fault script, any outcome, failed or not — the blob is still there afterwards with size `s`
+    and the right hash. -/
+theorem pull_preserves_verified_blobs (H : Bytes → D) (cfg : Cfg) (hv : cfg.verify = true)
+    (hs : cfg.staged = true) (hcol : NoLenCollision H) (c : Cache D) (a : Attempt D) (d : D) (s : Nat)
+    (hg : Good H c d s) : Good H (pull H cfg c a).1 d s := by
+  unfold pull
+  split
+  · exact hg
+  · split
+    · exact hg
+    · split
+      · exact hg
+      · rename_i _ m _ _ _ st hst
+        have hfiles := pullRun_files H cfg hs c m a st hst
+        have hg' : Good H st.cache d s := by
+          obtain ⟨f, hf, h1, h2⟩ := hg
+          exact ⟨f, by rw [hfiles]; exact hf, h1, h2⟩
+        unfold finish
+        split
+        · exact hg'
+        · split
+          · exact hg'
+          · split
+            · exact hg'
+            · have hp := verifyPass_preserves H cfg hv hs hcol st.cache m d s hg'
+              split
+              · rename_i c1 hc1
+                rw [hc1] at hp
+                obtain ⟨f, hf, h1, h2⟩ := hp
+                exact ⟨f, by rw [link_files]; exact hf, h1, h2⟩
+              · rename_i c1 hc1; rw [hc1] at hp; exact hp
+
+/-- every linked name's manifest layers are verified blobs -/
+def LinkedVerified (H : Bytes → D) (c : Cache D) : Prop :=
+  ∀ n m, c.links n = some m → ∀ l ∈ m.all, Good H c l.digest l.size
+
+theorem pull_keeps_linkedVerified (H : Bytes → D) (cfg : Cfg) (hv : cfg.verify = true)
+    (hs : cfg.staged = true) (hcol : NoLenCollision H) (c : Cache D) (a : Attempt D)
+    (hinv : LinkedVerified H c) : LinkedVerified H (pull H cfg c a).1 := by
+  intro n m hn l hl
+  by_cases hold : c.links n = some m
+  · exact pull_preserves_verified_blobs H cfg hv hs hcol c a l.digest l.size (hinv n m hold l hl)
+  · -- the link of `n` changed: this pull succeeded on `n` with manifest `m`
+    by_cases hok : (pull H cfg c a).2 = .ok
+    · have hpair : pull H cfg c a = ((pull H cfg c a).1, .ok) := by rw [← hok]
+      obtain ⟨m', st, c1, hm', _, _, _, _, _, _, hl1, hc'⟩ := pull_links_last H cfg c _ a hpair
+      obtain ⟨m'', hm'', hall⟩ := pull_success_verified H cfg hv (fun _ => hcol) c _ a hpair
+      have : m'' = m' := by rw [hm'] at hm''; injection hm'' with e; exact e.symm
+      subst this
+      -- which manifest is linked to n afterwards
+      rw [hc'] at hn
+      unfold Cache.link at hn
+      have key : m = m'' := by
+        split at hn
+        · split at hn
+          · rw [hl1] at hn; exact absurd hn hold
+          · by_cases hna : n = a.name
+            · simp [hna] at hn; exact hn.symm
+            · simp [hna] at hn; rw [hl1] at hn; exact absurd hn hold
+        · by_cases hna : n = a.name
+          · simp [hna] at hn; exact hn.symm
+          · simp [hna] at hn; rw [hl1] at hn; exact absurd hn hold
+      subst key
+      exact hall l hl
+    · rw [failed_pull_keeps_links H cfg c a hok] at hn
+      exact absurd hn hold
+
+/-- **The property as an invariant of every history (`staged` variant).**  Starting from an empty
+    cache (or any cache in which every linked name is verified), after ANY sequence of pulls —
+    successes, failures, retries, other names, lying manifests, broken plans, any faults and
+    completion orders — every linked name's manifest has every layer in the cache with exactly
+    the manifest's size and digest.  This is the L2 monitor of the driver, proved. -/
+theorem history_linked_layers_verified (H : Bytes → D) (cfg : Cfg) (hv : cfg.verify = true)
+    (hs : cfg.staged = true) (hcol : NoLenCollision H) (as : List (Attempt D)) :
+    ∀ c : Cache D, LinkedVerified H c → LinkedVerified H (pullHistory H cfg c as).1 := by
+  induction as with
+  | nil => intro c h; exact h
+  | cons a as ih =>
+    intro c h
+    simp only [pullHistory]
+    exact ih _ (pull_keeps_linkedVerified H cfg hv hs hcol c a h)
+
+theorem linkedVerified_empty (H : Bytes → D) : LinkedVerified H (Cache.empty : Cache D) := by
+  intro n m h; simp [Cache.empty] at h
 end
 
 /-- the repaired variant (`verify := true`, proposed_fixes/C09-F10abc-verify-before-link.patch) on the
     same scripts: (a), (b), (c) end in `ErrIncomplete`, nothing is linked, the bad blob is removed -/
-def rcfg : Cfg := ⟨2, none, true, true⟩
+def rcfg : Cfg := ⟨2, none, true, true, false⟩
 
 theorem F10abc_repaired_variant :
     (handlePull id rcfg Cache.empty [a1, a2]).2 = some (.err .incomplete) ∧
@@ -796,6 +1094,22 @@ theorem oversized_blob_refused_then_refetched :
     (pullHistory id rcfg Cache.empty [o1, o2]).1.files abcd = none ∧
     (pullHistory id rcfg Cache.empty [o1, o2]).1.links 0 = none ∧
     (pullHistory id rcfg Cache.empty [o1, o2, o3]).1.files abcd = some abcd := by decide
+
+/-- the F10d script on the `staged` variant: the lying pull fails, the verified blob is untouched,
+    the unverified bytes sit in the staging file -/
+def scfg : Cfg := ⟨6, none, true, true, true⟩
+
+theorem F10d_staged_variant :
+    (pullHistory id scfg Cache.empty [d1, d2]).2 = [.ok, .err .digest] ∧
+    (pullHistory id scfg Cache.empty [d1, d2]).1.links 0 = some mABCD ∧
+    (pullHistory id scfg Cache.empty [d1, d2]).1.files abcd = some abcd ∧
+    (pullHistory id scfg Cache.empty [d1, d2]).1.staging abcd = some [1, 2] := by decide
+
+/-- the hypothesis of the `staged` theorems is satisfiable (by the oracle's `H := id`) and their
+    premises are met by a non-trivial cache -/
+example : NoLenCollision (id : Bytes → Bytes) := fun x y h => by simp at h; rw [h]
+
+example : Good id (pullHistory id scfg Cache.empty [d1]).1 abcd 4 := ⟨abcd, by decide, by decide, rfl⟩
 
 /-! ### Non-vacuity: the hypotheses of the theorems above are met by non-trivial values -/
 
